@@ -16,8 +16,10 @@ MAIN_COMPS = {"cr", "ls", "wo", "ve", "cd", "rt", "ck"}
 STATEMENTS = "see the header of specs/kbuildx/KbxProps.tla and tools/manifest/extra-kbuild.json"
 ASSUME = [
     "trusted Go (no expected results in it): the ELF64 writer, the writers of constants.inc / linker.ld.in / fake tools / go_asm.h trees, "
-    "the projections (8-byte words of the image window + count of bytes changed elsewhere, log lines matched by one regular expression, "
-    "recorded argument lists of the fake nasm/ld, go/parser's view of the generated offsets file, NAME=VALUE split at the first '=')",
+    "the projections (8-byte words of the image window + count of bytes changed elsewhere; whether a redirect's position text / symbols or a "
+    "tool's name occur anywhere in what the run printed on stdout+stderr (fd-level capture); go_asm_offsets.inc read the way nasm reads "
+    "`NAME equ NUMBER`; the lines of build.sh; recorded argument lists of the fake tools; go/parser's view of the generated offsets file; "
+    "NAME=VALUE split at the first '='). No judgement depends on the wording of a diagnostic",
     "every step runs in child processes (most steps end the process on their error path); a run that ends the process is observed "
     "post mortem from the files it left; process-wide state a step changes (cwd, PATH, log output, the offsets registry) is restored by the harness",
     "text inputs are printable ASCII plus tab, CR, LF (Go's %q and TrimSpace are modelled for that alphabet only)",
@@ -107,7 +109,7 @@ def shape(c):
     if k == "wo":
         return (len(i["reg"]),)
     if k == "ve":
-        return (i["tool"], len(i["banner"]) // 6)
+        return (i["tool"], "\r" in i["banner"], "\t" in i["banner"], len(i["banner"]) // 6)
     if k == "mm":
         return (len(i["v"]),)
     if k == "ck":
